@@ -56,7 +56,17 @@ func richList(tag string) *astisub.Subtitles {
 func writeOp(format, tag string) Op {
 	return Op{"write-" + format + tag, func(string) string {
 		var b bytes.Buffer
-		err, pan := corpus.Write(format, richList(tag), &b)
+		l := richList(tag)
+		if tag == "#alt" {
+			// the other branch of every per-document option: v4.00+ script, 30 fps teletext STL, timestamp map, other language
+			l.Metadata.SSAScriptType = "v4.00+"
+			l.Metadata.Framerate = 30
+			l.Metadata.STLDisplayStandardCode = "1"
+			l.Metadata.Language = astisub.LanguageNorwegian
+			l.Metadata.WebVTTTimestampMap = &astisub.WebVTTTimestampMap{Local: time.Second, MpegTS: 900000}
+			l.Metadata.STLTimecodeStartOfProgramme = time.Hour
+		}
+		err, pan := corpus.Write(format, l, &b)
 		if pan != "" {
 			return "panic: " + pan
 		}
@@ -131,6 +141,8 @@ func Ops() []Op {
 		readOp("read-ts-german", "ts", docData("ts-german-serial-2")),
 		writeOp("srt", ""), writeOp("vtt", ""), writeOp("ttml", ""), writeOp("ssa", ""), writeOp("stl", ""),
 		writeOp("srt", "#2"), writeOp("stl", "#2"),
+		writeOp("ssa", "#alt"), writeOp("stl", "#alt"), writeOp("vtt", "#alt"), writeOp("ttml", "#alt"),
+		readOp("read-ssa-v4plus", "ssa", []byte("[Script Info]\nScriptType: v4.00+\n\n[V4+ Styles]\nFormat: Name, Fontname, Bold, PrimaryColour\nStyle: Default,Arial,-1,&H00FFFFFF\n\n[Events]\nFormat: Layer, Start, End, Style, Name, MarginL, MarginR, MarginV, Effect, Text\nDialogue: 1,0:00:01.00,0:00:02.00,Default,,0,0,0,,{\\i1}x{\\i0} y\n")),
 		transformOp("add", func(s *astisub.Subtitles) { s.Add(-2 * time.Second) }),
 		transformOp("fragment", func(s *astisub.Subtitles) { s.Order(); s.Fragment(700 * time.Millisecond) }),
 		transformOp("unfragment", func(s *astisub.Subtitles) { s.Unfragment() }),
